@@ -339,6 +339,10 @@ class PD(Operator):
         sm.arrays.set("equilibrium", eq, resize=True)
         if self.reset:
             sm.arrays.update("states", sm.equilibrium)
+        states = sm.states
+        if not getattr(states.flags, "writeable", True):
+            # a batched density added axes: store the states with the full shape (operators write in place)
+            sm.arrays.set("states", states)
         return sm
 
 
